@@ -17,7 +17,7 @@
      fixes/C11-constraint-edges.diff applied (ordering edges between instructions of different cycles that the
      hardware constraint forbids to run in parallel).
    * the commutation predicate is a parameter `comm : nat -> nat -> bool` (comm j d = commuting(j, d, nodes));
-     `commutation_rules` below is the library's instance (with fixes/C05-commutation-rules.diff applied) and
+     `commutation_rules` below is the library's instance (with fixes/C05-commutation-rules.diff and C05-role-order.diff) and
      `commutation_rules_orig` the shipped one. *)
 From Coq Require Import String Ascii.
 From Coq Require Import List Arith Bool QArith PeanoNat.
@@ -330,10 +330,16 @@ End Schedule.
 (* ------------------------------------------------------------------------------------------------ *)
 (* Instruction and the library's commutation rules                                                    *)
 
+(* itargets / icontrols are the qubits the MATRIX of the gate treats as targets / controls, as computed by
+   scheduler._controls_and_targets (fixes/C05-role-order.diff): with q = controls ++ targets in the order the gate lists
+   them and nc = _NUM_CONTROLS[name], controls = sorted q[:nc], targets = sorted q[nc:] for the library names whose
+   matrix is invariant under exchanging controls / targets among themselves (so TOFFOLI(targets=[0,1,2]) has controls
+   [0;1], target [2]); for RZX and user-defined names the two lists exactly as the gate gives them (order matters).
+   used_qubits is the same set in every case. *)
 Record instr := mkInstr {
   iname : string;
-  itargets : list nat;      (* sorted by Instruction.__init__ ; None is [] *)
-  icontrols : list nat;     (* sorted ; None is [] *)
+  itargets : list nat;
+  icontrols : list nat;
   iargs : list Q;           (* gate.arg_value: None = [], scalar = [x], sequence = its items *)
   idur : Q }.
 
@@ -378,14 +384,23 @@ Definition commutation_rules_orig (a b : instr) : bool :=
        then true
        else list_eqb (itargets a) (itargets b).
 
-(* with fixes/C05-commutation-rules.diff *)
+(* with fixes/C05-commutation-rules.diff and fixes/C05-role-order.diff *)
 Definition same_action (a b : instr) : bool :=
   (Nat.leb (length (iargs a)) 1 && Nat.leb (length (iargs b)) 1) || args_eqb (iargs a) (iargs b).
 
 Definition disjointb (a b : list nat) : bool := negb (existsb (fun x => memb x b) a).
 
+(* names with a rule: the keys of scheduler._NUM_CONTROLS, and RZX; every other name is a user-defined gate, which
+   commutes only with an identical copy (fixes/C05-role-order.diff) *)
+Definition rule_names : list string :=
+  ["X"; "Y"; "Z"; "RX"; "RY"; "RZ"; "H"; "SNOT"; "SQRTNOT"; "S"; "T"; "R"; "QASMU"; "PHASEGATE"; "IDLE"; "SWAP"; "ISWAP";
+   "iSWAP"; "SQRTSWAP"; "SQRTISWAP"; "SWAPALPHA"; "SWAPalpha"; "BERKELEY"; "MS";
+   "CNOT"; "CX"; "CY"; "CZ"; "CSIGN"; "CS"; "CT"; "CRX"; "CRY"; "CRZ"; "CPHASE"; "FREDKIN"; "TOFFOLI"; "RZX"]%string.
+
 Definition commutation_rules (a b : instr) : bool :=
   if negb (String.eqb (iname a) (iname b)) then rules_diff_name a b
+  else if negb (name_in (iname a) rule_names)
+  then list_eqb (icontrols a) (icontrols b) && list_eqb (itargets a) (itargets b) && args_eqb (iargs a) (iargs b)
   else if list_eqb (itargets a) (itargets b) then same_action a b
        else if (match icontrols a with [] => false | _ => true end) && list_eqb (icontrols a) (icontrols b)
             then disjointb (itargets a) (itargets b)
